@@ -150,10 +150,20 @@ func (p *Parser) ParseConditionalExpression() *ConditionalExpression {
 		return stmt
 	}
 
+	parsed := 0
+
 	for p.curToken.Type != EOF {
 		stmt.Expression = p.parseExpression(precedenceValueLowset)
+		parsed++
 
 		p.nextToken()
+	}
+
+	// a condition is exactly one expression: an empty input or tokens left
+	// over after the first expression are syntax errors
+	if parsed != 1 && len(p.errors) == 0 {
+		msg := fmt.Sprintf("Syntax error; a condition must be a single expression, found %d", parsed)
+		p.errors = append(p.errors, msg)
 	}
 
 	return stmt
